@@ -373,7 +373,7 @@ CHECKS["C20"] = dict(
 
 CHECKS["C15"] = dict(
     stages=[stage("fuzz_avoid", flavour="fuzz", kind="fuzz", quick=dict(cases=160000, shards=16, max_len=600, timeout=1200),
-                  thorough=dict(cases=2400000, shards=16, max_len=1200, timeout=9000)),
+                  thorough=dict(cases=1200000, shards=16, max_len=1200, timeout=9000)),
             # replay-only: the witnesses of assertion findings are cases of other harnesses
             stage("ROUTE", props=["C03.", "C04.", "C05."], replay_only=True), stage("C10", props=["C10."], replay_only=True),
             stage("C11", props=["C11."], replay_only=True), stage("C06", props=["C06."], replay_only=True),
